@@ -1,0 +1,14 @@
+//go:build verif
+
+package alert
+
+// VerifHook, when installed by a verification harness, is called at the
+// linearization points marked verifHook(...) in this package.  It may block
+// (the harness uses that as a scheduling gate).  Absent from normal builds.
+var VerifHook func(point string, args ...string)
+
+func verifHook(point string, args ...string) {
+	if h := VerifHook; h != nil {
+		h(point, args...)
+	}
+}
